@@ -86,14 +86,50 @@ class Node:
         return Node(*map(lambda a: self.__ensure_is_node(a), data))
 
     def __str__(self):
-        if isinstance(self.data, str):
-            return self.data
-        return '(' + ' '.join(map(str, self.data)) + ')'
+        # non-recursive: terms may be nested deeper than the recursion limit
+        parts = []
+        visit = [self]
+        needs_space = False
+        while visit:
+            cur = visit.pop()
+            if cur is None:
+                parts.append(')')
+                needs_space = True
+                continue
+            if needs_space:
+                parts.append(' ')
+            if isinstance(cur.data, str):
+                parts.append(cur.data)
+                needs_space = True
+                continue
+            parts.append('(')
+            needs_space = False
+            visit.append(None)
+            visit.extend(reversed(cur.data))
+        return ''.join(parts)
 
     def __repr__(self):
-        if isinstance(self.data, str):
-            return f'"{self.data}"'
-        return f'({self.id} ' + ' '.join(map(repr, self.data)) + ')'
+        # non-recursive, see __str__
+        parts = []
+        visit = [self]
+        needs_space = False
+        while visit:
+            cur = visit.pop()
+            if cur is None:
+                parts.append(')')
+                needs_space = True
+                continue
+            if needs_space:
+                parts.append(' ')
+            if isinstance(cur.data, str):
+                parts.append(f'"{cur.data}"')
+                needs_space = True
+                continue
+            parts.append(f'({cur.id} ')
+            needs_space = False
+            visit.append(None)
+            visit.extend(reversed(cur.data))
+        return ''.join(parts)
 
     def __len__(self):
         if self.is_leaf():
